@@ -104,11 +104,14 @@ def handshake (cfg : Cfg) (s : Script) : Option Result :=
     | some r => some r
     | none => if cfg.credentials then mustSucceed s.auth else none
 
-/-- `_fail`: a failure `e` of the whole message; recipients with a reply class of their own keep it.
-    One class for everybody: the error is raised; otherwise a per-recipient table is returned. -/
+/-- `_fail`: a failure `e` of the whole message; a recipient without a reply of its own gets `e`. Then
+    `kinds = set(isinstance(value, PermanentRelayError) for value in rcpt_results.values())`: one kind for everybody (all
+    permanent, or all transient): `e` itself is raised — also when every recipient had a reply of its own of the OTHER kind,
+    which happens only when MAIL was refused and the pipelined RCPTs were answered all the same (what a server says to RCPT
+    after it refused the sender is no verdict about the recipient); two kinds: the per-recipient table is returned. -/
 def fail (own : List (Option Cls)) (e : Cls) : Result :=
   let filled := own.map fun o => o.getD e
-  if filled.all (· == e) then .raised e else .table filled
+  if filled.all (· == .perm) || filled.all (· != .perm) then .raised e else .table filled
 
 def ownClasses (rcpts : List Nat) : List (Option Cls) :=
   rcpts.map fun c => if isError c then some (factory c) else none
